@@ -401,6 +401,38 @@ func poolDrivers() []*poolDriver {
 				}
 			}
 		}})
+	// ---- refresh-resolve: a refresh starting while a resolver update arrives ----
+	ds = append(ds, &poolDriver{Name: "refresh-resolve",
+		Cfg: poolCfg{Name: "refresh-resolve pool=1 calls=1 ms=1", Min: 1, Max: 1, WM: 100, RefCalls: 1, RefMs: 1,
+			Setup: append(readyPool(1), "pick(plain,,L,g,d1)", "adv(2)")},
+		Threads: func(w *poolWorld, r *driverRun) []tprog {
+			c0 := callOf(w.calls[0])
+			return []tprog{
+				{name: "done", fn: func() { c0.complete("cde") }},
+				{name: "resolve", fn: func() {
+					w.b.UpdateClientConnState(balancer.ClientConnState{ResolverState: resolver.State{Addresses: addrLists["a2"]}, BalancerConfig: &GCPBalancerConfig{ApiConfig: w.cfg.apiConfig()}})
+				}},
+				{name: "balancer", fn: func() {
+					if !vsched.WaitUntil(func() bool { return len(w.cc.scs) > 1 }, "await replacement") {
+						return
+					}
+					w.rawState(1, connectivity.Connecting)
+					w.rawState(1, connectivity.Ready)
+				}, mayPark: func() bool { return true }},
+			}
+		},
+		End: func(w *poolWorld, r *driverRun) {
+			// both the resolver update and the swap have completed: the channel's
+			// connection must use the latest list
+			refs := reflect.ValueOf(w.gb).Elem().FieldByName("scRefs")
+			it := refs.MapRange()
+			for it.Next() {
+				sc := (*fakeSC)(it.Key().Elem().UnsafePointer())
+				if sc.addrs != "a2" {
+					r.violate("C20", "C20.N3", "pool connection uses an outdated address list after a resolver update concurrent with a refresh", fmt.Sprintf("%v uses %q, latest resolved list is a2", sc, sc.addrs))
+				}
+			}
+		}})
 	// ---- bind/unbind completions against keyed picks ----
 	ds = append(ds, &poolDriver{Name: "bind-unbind",
 		Cfg: poolCfg{Name: "bind-unbind pool=2", Min: 2, Max: 2, WM: 100, Fallback: true,
